@@ -25,7 +25,7 @@ def childrenOps : OpTable
     pure (encTrace (if isTag then tagTrace emptyTag ops else trace [] ops))
   | "c14_t2n" => some do
     let a ← arg
-    pure (encExcept encStoredList (tagchildsToTagnodes a))
+    pure (encExcept encStoredList (chTagchildsToTagnodes a))
   | "c14_flatten" => some do
     let a ← arg
     match a.iter with
